@@ -31,6 +31,13 @@ def main():
         tag = 'r' + var
         diff = os.path.join(src, 'variant_%s.diff' % var)
         demo = os.path.join(src, 'variant_%s.rs' % var)
+    base_patch = None
+    if '--round4' in sys.argv:
+        src = '/tmp/wb-%s/demo' % pid
+        tag = 'n' + var
+        diff = os.path.join(src, 'variant_%s.diff' % var)
+        demo = os.path.join(src, 'variant_%s.rs' % var)
+        base_patch = open('/tmp/wbbase-%s' % pid).read().strip()
     res = {'property': pid, 'variant': var}
     if not (os.path.exists(diff) and os.path.exists(demo)):
         print(json.dumps(dict(res, error='missing files')))
@@ -39,7 +46,13 @@ def main():
     try:
         root = os.path.join(tmp, 'repo')
         shutil.copytree('/repo', root, ignore=shutil.ignore_patterns('target', '.git'))
-        sh('git init -q . && git add -A && git -c user.email=x@x -c user.name=x commit -qm base', root)
+        sh('git init -q . && git add -A && git -c user.email=x@x -c user.name=x commit -qm upstream', root)
+        if base_patch:
+            rc, out = sh('git apply %s && git add -A && git -c user.email=x@x -c user.name=x commit -qm base' % base_patch, root)
+            if rc != 0:
+                print(json.dumps(dict(res, error='base patch does not apply', out=out[-300:])))
+                return 1
+            res['base'] = os.path.basename(os.path.dirname(base_patch))
         env = dict(os.environ, CARGO_NET_OFFLINE='true', CARGO_TARGET_DIR=os.path.join(tmp, 'target'))
         # demo on the clean tree
         os.makedirs(os.path.join(root, 'tests'))
@@ -83,7 +96,13 @@ def main():
         if '--save' in sys.argv and confirmed:
             d = os.path.join(V, 'seeded', '%s-%s' % (pid, tag))
             os.makedirs(d, exist_ok=True)
-            shutil.copy(diff, os.path.join(d, 'patch.diff'))
+            if base_patch:
+                # stored relative to /repo: the behaviour-preserving base refactoring plus the change
+                rc, comb = sh('git diff HEAD~1 -- src', root)
+                open(os.path.join(d, 'patch.diff'), 'w').write(comb)
+                shutil.copy(diff, os.path.join(d, 'change_on_base.diff'))
+            else:
+                shutil.copy(diff, os.path.join(d, 'patch.diff'))
             shutil.copy(demo, os.path.join(d, 'demo.rs'))
             notes = ''
             np = os.path.join(src, 'NOTES.md')
@@ -92,7 +111,8 @@ def main():
             json.dump({
                 'breaks_property': pid,
                 'variant': tag,
-                'origin': 'independent sub-agent given only the property text and a scratch worktree' + (' (second round: asked for subtle changes - cooperating edits, narrow refactoring slips - avoiding the first round\'s mechanisms)' if tag.startswith('h') else ' (third round: a = a narrow-trigger "needle" change, b = one behaviour change hidden inside a 60+ line refactoring)' if tag.startswith('r') else ''),
+                'origin': 'independent sub-agent given only the property text and a scratch worktree' + (' (second round: asked for subtle changes - cooperating edits, narrow refactoring slips - avoiding the first round\'s mechanisms)' if tag.startswith('h') else ' (third round: a = a narrow-trigger "needle" change, b = one behaviour change hidden inside a 60+ line refactoring)' if tag.startswith('r') else ' (fourth round: written against a tree already restructured by the behaviour-preserving refactoring named in "base"; patch.diff = base + change, relative to /repo)' if tag.startswith('n') else ''),
+                'base': (res.get('base') or None),
                 'needs_to_manifest': 'see notes',
                 'notes_from_author': notes,
                 'confirmed_by': 'tools/eval_seeded.py in a scratch copy of /repo: existing suite with the change = 59 unit + 4 doc tests pass; demo (cargo test --test demo) fails with the change and passes without it',
